@@ -9,8 +9,9 @@
      `value is not None and is_right_type(value)`               record) and the slots of removed rows
    ChoiceColumn._rename_cell_choice                           rename_cell Choice
    ChoiceListColumn._rename_cell_choice                       rename_cell ChoiceList
-   self.BulkUpdateRecord(table_id, row_ids, {col_id: values}) apply_updates, after docactions' assertion that every
-                                                              row id is a record (ErrAssertion otherwise)
+   self.BulkUpdateRecord(table_id, row_ids, {col_id: values}) trim (trim_update_action drops no-op rows), then
+                                                              docactions' assertion that every remaining row id is a
+                                                              record (ErrAssertion otherwise), then apply_updates
    json.loads(rec.filter) for the filters of this column      filt: FEmpty (falsy text), FObj entries, FNotObj
    {k: [rename(v) for v in values] for k, values in ...}      rename_entry: iterating a list / a str (its characters) /
                                                               a dict (its keys) / anything else (TypeError)
@@ -91,9 +92,14 @@ Inductive result (A : Type) : Type := Ok (a : A) | Err (e : error).
 Arguments Ok {A} a.
 Arguments Err {A} e.
 
+(* Engine.trim_update_action (called by doBulkUpdateRecord before the doc action is built): rows whose new
+   value == the stored one are dropped *)
+Definition trim (data : list val) (ups : list (nat * val)) : list (nat * val) :=
+  filter (fun u => negb (py_eq (snd u) (nth (fst u) data VNone))) ups.
+
 (* the data half of RenameChoices on a non-formula column *)
 Definition rename_column (k : ckind) (ren : renames) (ids : list Z) (data : list val) : result (list val) :=
-  let ups := updates k ren data in
+  let ups := trim data (updates k ren data) in
   if forallb (fun u => is_record ids (fst u)) ups then Ok (apply_updates data ups) else Err ErrAssertion.
 
 (* ---- filters *)
@@ -174,23 +180,24 @@ Record state := mkState {
 
 Definition outcome := (list (str * list val) * list (option (list (str * list val))))%type.
 
+(* the target column is looked up by id among the table's columns; the others are not touched *)
+Fixpoint rename_cols (k : ckind) (ren : renames) (ids : list Z) (cid : str) (cols : list (str * list val))
+  : result (list (str * list val)) :=
+  match cols with
+  | [] => Ok []
+  | (c, data) :: rest =>
+      if str_eqb c cid then
+        match rename_column k ren ids data with
+        | Err x => Err x
+        | Ok d => match rename_cols k ren ids cid rest with Err x => Err x | Ok r => Ok ((c, d) :: r) end
+        end
+      else match rename_cols k ren ids cid rest with Err x => Err x | Ok r => Ok ((c, data) :: r) end
+  end.
+
 Definition rename_action (st : state) (cid : str) (k : ckind) (is_formula : bool) (colref : Z) (ren : renames)
   : result outcome :=
-  let data_step :=
-    if is_formula then Ok (s_cols st)
-    else
-      (fix go (cols : list (str * list val)) : result (list (str * list val)) :=
-         match cols with
-         | [] => Ok []
-         | (c, data) :: rest =>
-             if str_eqb c cid then
-               match rename_column k ren (s_ids st) data with
-               | Err x => Err x
-               | Ok d => match go rest with Err x => Err x | Ok r => Ok ((c, d) :: r) end
-               end
-             else match go rest with Err x => Err x | Ok r => Ok ((c, data) :: r) end
-         end) (s_cols st) in
-  match data_step with
+  (* "We don't set the values of formula columns, they should just recalculate themselves" *)
+  match (if is_formula then Ok (s_cols st) else rename_cols k ren (s_ids st) cid (s_cols st)) with
   | Err x => Err x
   | Ok cols => match rename_filters ren colref (s_filters st) with
                | Err x => Err x
@@ -248,6 +255,28 @@ Definition spec_filter (ren : renames) (f : filt) : option (list (str * list val
   | FObj es => if cols_eqb (filter_content es) (spec_entries ren es) then None else Some (spec_entries ren es)
   | _ => None
   end.
+
+(* the whole action, as the property describes it *)
+Definition spec_cols (k : ckind) (ren : renames) (cid : str) (is_formula : bool) (cols : list (str * list val))
+  : list (str * list val) :=
+  if is_formula then cols
+  else map (fun c => if str_eqb (fst c) cid then (fst c, map (spec_cell k ren) (snd c)) else c) cols.
+
+Definition spec_filters (ren : renames) (colref : Z) (fs : list (Z * filt)) : list (option (list (str * list val))) :=
+  map (fun cf => if Z.eqb (fst cf) colref then spec_filter ren (snd cf) else None) fs.
+
+(* side conditions under which the unchanged code performs the action (see the refuted statements in Props/C39.v):
+   no slot that is not a record (slot 0, slots of removed rows) holds a value the mapping changes ... *)
+Definition safe_column (k : ckind) (ren : renames) (ids : list Z) (data : list val) : Prop :=
+  forall i v n, nth_error data i = Some v -> rename_cell k ren v = Some n -> n <> v -> is_record ids i = true.
+
+Definition safe_state (st : state) (cid : str) (k : ckind) (is_formula : bool) (ren : renames) : Prop :=
+  is_formula = false -> forall c data, In (c, data) (s_cols st) -> str_eqb c cid = true ->
+  safe_column k ren (s_ids st) data.
+
+(* ... and every saved filter of the column is empty or an object of lists *)
+Definition filters_well_formed (colref : Z) (fs : list (Z * filt)) : Prop :=
+  forall cr f, In (cr, f) fs -> cr = colref -> well_formed_filter f = true.
 
 (* ------------------------------------------------------------------------------------------------
    Equality tests for the generated correspondence cases. *)
